@@ -24,10 +24,37 @@ void      ChkIO(tErrorNum ErrNo) { (void)ErrNo; if (verif_errno != 0) { g_exit_c
 void      ChkXIO(tErrorNum ErrNo, char* pExtError) { (void)pExtError; ChkIO(ErrNo); }
 static FILE* mon_fopen(void) { gf[1].pos = 0; gf[1].len = 0; gf[1].is_open = 1; return GF_FILE(1); }
 #define fopen(n, m) mon_fopen()
-static int mon_snprintf_creator(char* d, size_t n) { if (n >= 5) { d[0] = 'A'; d[1] = 'S'; d[2] = ' '; d[3] = 'x'; d[4] = 0; } return 4; }
+/* creator string "AS <version>/<arch>-<os>": 12 characters here (the real one is longer) */
+#define CREATOR "AS 1.42/a-li"
+static int mon_snprintf_creator(char* d, size_t n) { if (n >= 13) { d[0]='A'; d[1]='S'; d[2]=' '; d[3]='1'; d[4]='.'; d[5]='4'; d[6]='2'; d[7]='/'; d[8]='a'; d[9]='-'; d[10]='l'; d[11]='i'; d[12]=0; } return 12; }
 #define as_snprintf(d, n, ...) mon_snprintf_creator((d), (n))
 
+/* memcpy monitor: CBMC's model of a symbolic-length memcpy (VLA + array_replace) produced
+ * 16 M variables even for 16-byte lines.  The monitor checks the ranges, checks that the
+ * watched earlier payload byte is not overwritten, and transfers the witness byte gk_mc. */
+static unsigned       gk_mc;
+static long           g_watch_off = -1; /* file offset of a watched earlier payload byte, -1 = none */
+#ifdef VERIF_NATIVE
+#define __CPROVER_w_ok(p, n) 1
+#define __CPROVER_r_ok(p, n) 1
+#endif
+#define MC1(k) if ((k) < n) ((unsigned char*)d)[k] = ((const unsigned char*)s)[k]
+static void* verif_memcpy(void* d, const void* s, size_t n) {
+    if (n <= 8) { /* field-sized copies (endian helpers): exact */
+        MC1(0); MC1(1); MC1(2); MC1(3); MC1(4); MC1(5); MC1(6); MC1(7);
+        return d;
+    }
+    VASSERT(n == 0 || (__CPROVER_w_ok(d, n) && __CPROVER_r_ok(s, n)), "C03: WriteBytes copies inside both buffers");
+    /* the watched byte is still in the buffer iff its offset is at or beyond the file's end */
+    VASSERT(g_watch_off < 0 || g_watch_off < gf[1].len ||
+            !(&CodeBuffer[g_watch_off - gf[1].len] >= (unsigned char*)d && &CodeBuffer[g_watch_off - gf[1].len] < (unsigned char*)d + n),
+            "C04: buffering a line does not overwrite an earlier payload byte that is still in the buffer");
+    if (gk_mc < n) ((unsigned char*)d)[gk_mc] = ((const unsigned char*)s)[gk_mc];
+    return d;
+}
+#define memcpy(d, s, n) verif_memcpy((d), (s), (n))
 #include "asmcode.c" /* the real /repo/asmcode.c */
+#undef memcpy
 #undef as_snprintf
 #undef fopen
 
@@ -70,7 +97,11 @@ static void mk_code(void) {
 #endif
     MaxCodeLen = (LongWord)CodeLen * g_gran;
     if (MaxCodeLen < 4) MaxCodeLen = 4;
+#ifdef X_FIXBUF
+    BAsmCode = malloc(16);
+#else
     BAsmCode = malloc(MaxCodeLen);
+#endif
     VASSUME(BAsmCode != NULL);
     WAsmCode = (Word*)BAsmCode; DAsmCode = (LongWord*)BAsmCode;
     TurnWords = False;
@@ -90,6 +121,7 @@ void h_WriteBytes_fit_new(void) {
     src = BAsmCode[gk_j];
     off = (long)LenPos + 2 + (long)LenSoFar + gk_j; /* where payload byte LenSoFar+j belongs */
     gf[1].w_off = off;
+    gk_mc = gk_j; g_watch_off = -1;
     WriteBytes();
     VPOST(WR_INV, "C04: WriteBytes keeps the writer invariant (buffer below 512, lengths and file position consistent)");
     VPOST(LenSoFar == g_o_lensofar + n && RecPos == g_o_recpos && LenPos == g_o_lenpos, "C04: the open record grows by the line's byte count");
@@ -108,6 +140,8 @@ void h_WriteBytes_fit_old(void) {
     off = (long)LenPos + 2 + q;
     gf[1].w_off = off;
     old = LBYTE(off);
+    gk_mc = 0x7fffffff; /* no byte of this line is the witness */
+    g_watch_off = off;
     WriteBytes();
     VPOST(LBYTE(off) == old, "C04: WriteBytes changes no earlier payload byte");
     VREACH("end");
@@ -120,7 +154,113 @@ void h_WriteBytes_fit_hdr(void) {
     VASSUME((long)LenSoFar + n <= 0xffff);
     VASSUME(gf[1].w_off < (long)LenPos + 2);
     old = gf[1].w_val;
+    gk_mc = 0x7fffffff; g_watch_off = -1;
     WriteBytes();
     VPOST(gf[1].w_val == old, "C04: WriteBytes does not touch headers or earlier records");
     VREACH("end");
+}
+
+/* expected byte k (0..9) of a record header written for start address a */
+#define HDRBYTE(k, a) ((unsigned char)((k) == 0 ? (RelSegs ? FileHeaderRelocRec : FileHeaderDataRec) : (k) == 1 ? HeaderID : (k) == 2 ? ActPC : \
+                       (k) == 3 ? (Byte)Grans[ActPC] : (k) < 8 ? (unsigned char)((a) >> (8 * ((k) - 4))) : 0))
+
+/* NewRecord on an empty open record: the header is rewritten in place (no empty record is left) */
+void h_NewRecord_empty(void) {
+    unsigned long a; unsigned char old; long w;
+    mk_writer();
+    VASSUME(LenSoFar == 0);
+    VND(a, ulong);
+    w = gf[1].w_off; old = gf[1].w_val;
+    VASSUME(w < gf[1].len);
+    gk_mc = 0x7fffffff; g_watch_off = -1;
+    NewRecord(a);
+    VPOST(WR_INV && LenSoFar == 0 && RecPos == g_o_recpos, "C04: NewRecord on an empty record reuses its place");
+    if (w >= g_o_recpos) { VPOST(gf[1].w_val == HDRBYTE(w - g_o_recpos, (unsigned)a), "C04: record header = type, CPU id, segment, granularity, start address, length 0"); VREACH("hdr"); }
+    else { VPOST(gf[1].w_val == old, "C04: NewRecord leaves earlier records alone"); VREACH("before"); }
+}
+
+/* NewRecord on a record with payload: its length is patched in, a new header follows at the end */
+void h_NewRecord_full(void) {
+    unsigned long a; unsigned char old; long w, end0;
+    mk_writer();
+    VASSUME(LenSoFar > 0);
+    VND(a, ulong);
+    w = gf[1].w_off;
+    end0 = (long)LenPos + 2 + (long)LenSoFar; /* logical end of the file incl. buffered bytes */
+    VASSUME(w < end0 + 10);
+    old = (w < end0) ? LBYTE(w) : 0;
+    gk_mc = 0x7fffffff; g_watch_off = -1;
+    NewRecord(a);
+    VPOST(WR_INV && LenSoFar == 0 && RecPos == end0 && CodeBufferFill == 0, "C04: NewRecord closes the record and opens a new one at the end of the file");
+    if (w >= end0) { VPOST(gf[1].w_val == HDRBYTE(w - end0, (unsigned)a), "C04: new record header = type, CPU id, segment, granularity, start address, length 0"); VREACH("newhdr"); }
+    else if (w == g_o_lenpos || w == g_o_lenpos + 1) { VPOST(gf[1].w_val == (unsigned char)(g_o_lensofar >> (8 * (w - g_o_lenpos))), "C04: the closed record's length field holds its payload length"); VREACH("len"); }
+    else { VPOST(gf[1].w_val == old, "C04: closing a record changes neither its payload nor earlier records"); VREACH("old"); }
+}
+
+/* WriteBytes when the line does not fit into the 64 KiB record any more */
+void h_WriteBytes_overflow(void) {
+    long n, end0, w; unsigned char src = 0, old = 0;
+    mk_writer(); mk_code();
+    n = (long)CodeLen * g_gran;
+    VASSUME(n > 0 && (long)LenSoFar + n > 0xffff);
+    end0 = (long)LenPos + 2 + (long)LenSoFar;
+    VND(gk_j, uint);
+    VASSUME((long)gk_j < n);
+    w = gf[1].w_off;
+    VASSUME(w < end0 + 10 + n);
+    if (w >= end0 + 10) { gk_j = (unsigned)(w - end0 - 10); src = BAsmCode[gk_j]; gk_mc = gk_j; } else gk_mc = 0x7fffffff;
+    if (w < end0) old = LBYTE(w);
+    g_watch_off = -1;
+    WriteBytes();
+    VPOST(WR_INV && RecPos == end0 && LenSoFar == n, "C04: a line that would exceed 65535 payload bytes starts a new record");
+    if (w >= end0 + 10) { VPOST(LBYTE(w) == src, "C04: the new record's payload is the line's code"); VREACH("payload"); }
+    else if (w >= end0) { if (w - end0 < 8) { VPOST(LBYTE(w) == HDRBYTE(w - end0, (unsigned)g_pc), "C04: the new record starts at the line's address"); } VREACH("newhdr"); }
+    else if (w == g_o_lenpos || w == g_o_lenpos + 1) { VPOST(gf[1].w_val == (unsigned char)(g_o_lensofar >> (8 * (w - g_o_lenpos))), "C04: the full record's length field holds its payload length"); VREACH("len"); }
+    else { VPOST(LBYTE(w) == old, "C04: earlier payload is untouched"); VREACH("old"); }
+}
+
+void h_OpenFile(void) {
+    long w;
+    mk_writer();
+    w = gf[1].w_off;
+    VASSUME(w < 12);
+    OpenFile();
+    VPOST(WR_INV && RecPos == 2 && LenSoFar == 0 && CodeBufferFill == 0 && gf[1].len == 12, "C04: a new code file is the magic plus one empty record header");
+    VPOST(w >= 2 || gf[1].w_val == (unsigned char)(FileMagic >> (8 * w)), "C04: the file starts with the magic $1489 (low byte first)");
+    VPOST(w < 2 || gf[1].w_val == HDRBYTE(w - 2, (unsigned)g_pc), "C04: the first record header describes the current segment and address");
+    VREACH("end");
+}
+
+void h_CloseFile(void) {
+    long w, end0, base; unsigned char old = 0;
+    mk_writer();
+    VND(StartAdrPresent, uchar); VASSUME(StartAdrPresent <= 1);
+    VND(StartAdr, u64);
+    end0 = (LenSoFar == 0) ? (long)RecPos : (long)LenPos + 2 + (long)LenSoFar;
+    w = gf[1].w_off;
+    if (w < end0 && !(w >= RecPos && LenSoFar == 0)) old = LBYTE(w);
+    gk_mc = 0x7fffffff; g_watch_off = -1;
+    CloseFile();
+    base = end0;
+    VPOST(gf[1].len == base + (StartAdrPresent ? 5 : 0) + 1 + 12 || gf[1].len == base + 10, "C04: the file ends with optional entry record, end marker and creator string");
+    VPOST(!gf[1].is_open, "C04: the code file is closed");
+    if (w >= base) {
+        long k = w - base;
+        if (StartAdrPresent) {
+            VPOST(k != 0 || gf[1].w_val == FileHeaderStartAdr, "C04: entry record marker");
+            VPOST(!(k >= 1 && k < 5) || gf[1].w_val == (unsigned char)(StartAdr >> (8 * (k - 1))), "C04: entry address");
+            VPOST(k != 5 || gf[1].w_val == FileHeaderEnd, "C04: end marker after the entry record");
+            VPOST(!(k >= 6 && k < 18) || gf[1].w_val == (unsigned char)CREATOR[k - 6], "C04: creator string");
+        } else {
+            VPOST(k != 0 || gf[1].w_val == FileHeaderEnd, "C04: end marker");
+            VPOST(!(k >= 1 && k < 13) || gf[1].w_val == (unsigned char)CREATOR[k - 1], "C04: creator string");
+        }
+        VREACH("tail");
+    } else if (g_o_lensofar > 0 && (w == g_o_lenpos || w == g_o_lenpos + 1)) {
+        VPOST(gf[1].w_val == (unsigned char)(g_o_lensofar >> (8 * (w - g_o_lenpos))), "C04: the last record's length field holds its payload length");
+        VREACH("len");
+    } else if (w < end0 && !(w >= g_o_recpos && g_o_lensofar == 0)) {
+        VPOST(gf[1].w_val == old, "C04: closing the file changes no payload byte");
+        VREACH("old");
+    }
 }
